@@ -25,7 +25,22 @@ func (l *LogPeerstore) SetPeerInfoHook(f func(p peer.ID, ai peer.AddrInfo)) {
 	peerInfoHooks.Store(l, f)
 }
 
+var peerInfoPreHooks sync.Map // *LogPeerstore -> func(peer.ID)
+
+// SetPeerInfoPreHook installs (or removes) a function called before every PeerInfo read, on the reading goroutine
+// (it may wait: the read happens when it returns).
+func (l *LogPeerstore) SetPeerInfoPreHook(f func(p peer.ID)) {
+	if f == nil {
+		peerInfoPreHooks.Delete(l)
+		return
+	}
+	peerInfoPreHooks.Store(l, f)
+}
+
 func (l *LogPeerstore) PeerInfo(p peer.ID) peer.AddrInfo {
+	if f, ok := peerInfoPreHooks.Load(l); ok {
+		f.(func(peer.ID))(p)
+	}
 	ai := l.Peerstore.PeerInfo(p)
 	if f, ok := peerInfoHooks.Load(l); ok {
 		f.(func(peer.ID, peer.AddrInfo))(p, ai)
